@@ -431,7 +431,7 @@ class _Sub(Elaboratable):
                 i = [("a", b["iw"])] if b.get("iw") else []
                 o = [("o", b["ow"])] if b.get("ow") else []
                 d.obj[n] = Method(name=n, i=i, o=o)
-            elif d.an.parent[n] is None:
+            else:  # nested transactions, too: relations may name them
                 d.obj[n] = Transaction(name=n)
 
     def elaborate(self, platform):
@@ -486,8 +486,7 @@ class _Sub(Elaboratable):
                     define(s["body"])
                 elif t == "nt":
                     nb = s["body"]
-                    tr = Transaction(name=nb["name"])
-                    d.obj[nb["name"]] = tr
+                    tr = d.obj[nb["name"]]
                     with tr.body(m, ready=d.inp[f"rdy:{nb['name']}"] if nb.get("rdy") else C(1)):
                         emit(nb["stmts"], nb["name"])
                 elif t == "if":
@@ -1111,6 +1110,43 @@ def gen_spec(
             bodies.append(dict(kind="T", name=f"t{nt}", mod=mod, rdy=draw(st.booleans()), stmts=[mk(i)]))
             bodies.append(dict(kind="T", name=f"t{nt + 1}", mod=mod, rdy=draw(st.booleans()),
                                stmts=[dict(t="if", alts=alts, **{"else": draw(st.booleans())})]))
+    elif inject_shapes and allow_if and draw(st.integers(0, 3)) == 0:
+        # shape: two transactions of one module call the same exclusive method X from inside control structures that
+        # sit at the same position (ordinal, depth) of their bodies but in DIFFERENT alternatives: nothing makes these
+        # two call sites exclusive (different structures), so the transactions conflict
+        cand = [j for j in range(nm) if not bodies[j]["nonex"]]
+        if cand:
+            j = draw(st.sampled_from(cand))
+            cb = bodies[j]
+
+            def mk2():
+                return dict(t="call", callee=cb["name"], en=allow_enable and draw(st.integers(0, 4)) == 0, hops=0,
+                            via_methods=False,
+                            arg=(draw(st.integers(0, (1 << cb["iw"]) - 1)) if (cb["iw"] and draw(st.booleans())) else None))
+
+            def struct(kind_, nalt, where, inner):
+                alts = [[] for _ in range(nalt)]
+                alts[where] = inner
+                if kind_ == "if" or not (allow_switch and allow_fsm):
+                    return dict(t="if", alts=alts, **{"else": nalt > 1 and draw(st.booleans())})
+                if kind_ == "switch":
+                    dflt = draw(st.booleans())
+                    return dict(t="switch", w=2, pats=[[k] for k in range(nalt - int(dflt))], default=dflt, alts=alts)
+                return dict(t="fsm", alts=alts if nalt > 1 else alts + [[]])
+
+            kind_ = draw(st.sampled_from(["if", "if", "switch", "fsm"]))
+            nalt = draw(st.integers(2, 3))
+            wa = draw(st.integers(0, nalt - 1))
+            wb = draw(st.sampled_from([k for k in range(nalt) if k != wa]))
+            deep = depth_ok = draw(st.booleans())
+            lead = draw(st.integers(0, 1))  # the same number of (empty) structures precedes both
+            for k, where in enumerate((wa, wb)):
+                inner = [mk2()]
+                stc = struct(kind_, nalt, where, inner)
+                if deep and depth_ok:
+                    stc = struct("if", 2, 0, [stc])
+                stmts = [dict(t="if", alts=[[]], **{"else": False}) for _ in range(lead)] + [stc]
+                bodies.append(dict(kind="T", name=f"t{nt + k}", mod=cb["mod"], rdy=draw(st.booleans()), stmts=stmts))
     if allow_nm and draw(st.integers(0, 1)) == 0:
         # a method DEFINED INSIDE another body (it is ready-dependent on the enclosing body): one top-level method is
         # moved into the statements of another body whose transactions are disjoint from the method's (a transaction
@@ -1139,7 +1175,20 @@ def gen_spec(
             trial = _copy.deepcopy(bodies)
             inner = trial.pop(j)
             owner = trial[pi - (1 if pi > j else 0)]
-            inner["mod"] = owner["mod"]
+            def set_mod(b, mod):
+                b["mod"] = mod
+
+                def rec(stmts):
+                    for st_ in stmts:
+                        if st_["t"] == "nt":
+                            set_mod(st_["body"], mod)
+                        elif st_["t"] in ("if", "switch", "fsm"):
+                            for sub in st_["alts"]:
+                                rec(sub)
+
+                rec(b["stmts"])
+
+            set_mod(inner, owner["mod"])
             stmt = dict(t="nt", body=inner)
             owner["stmts"].append(dict(t="if", alts=[[stmt]], **{"else": False}) if guarded else stmt)
             tspec = dict(sched=schedv, bodies=trial, rels=[], tops=[])
@@ -1199,9 +1248,15 @@ def gen_spec(
                         spec["rels"].pop()
     if allow_rels and allow_rdep and draw(st.integers(0, 2)) == 0:
         # one explicit schedule_before(ready_dependent=True) between bodies reached by different transactions
+        # (the dependent end may be a nested body or the target of another such relation: it then has two sources)
+        inner_names = [n for n in an.bodies if an.parent[n] is not None]
+        prefer = inner_names + [r[2] for r in spec["rels"] if r[0] == "sbr"]
         for _ in range(6):
-            a, b2 = draw(st.sampled_from(top)), draw(st.sampled_from(top))
+            a = draw(st.sampled_from(top))
+            b2 = draw(st.sampled_from(prefer)) if prefer and draw(st.booleans()) else draw(st.sampled_from(top))
             if a == b2 or not an.reaching_transactions(a) or not an.reaching_transactions(b2):
+                continue
+            if ["sbr", a, b2] in spec["rels"]:
                 continue
             spec["rels"].append(["sbr", a, b2])
             if relations_ok(spec):
